@@ -129,7 +129,7 @@ def run(ctx):
     reqs = ["r1", "r2", "r3"]
     accts = ["a", "b"]
     res = ctx.tlc("Lock", strict_cfg(reqs, accts, "release", 2 if thorough else 1, True), "strict",
-                  timeout=1800, coverage=thorough)
+                  timeout=1800, coverage=thorough, pure=not thorough)
     model_ok = res["status"] == "ok"
     ctx.coverage["states"] = res.get("distinct", 0)
     ctx.coverage["transitions"] = res.get("generated", 0)
@@ -138,13 +138,13 @@ def run(ctx):
     if thorough:
         zero = [l for l in res["output"].splitlines() if l.rstrip().endswith(": 0") and "line" in l]
         ctx.coverage["uncovered_spec_lines"] = len(zero)
-        res4 = ctx.tlc("Lock", strict_cfg(["r1", "r2", "r3", "r4"], accts, "release", 1, False), "strict4", timeout=3000)
+        res4 = ctx.tlc("Lock", strict_cfg(["r1", "r2", "r3", "r4"], accts, "release", 1, False), "strict4", timeout=3000, pure=True)
         if res4["status"] != "ok":
             raise Infra("Lock.tla 4 requests: %s" % res4["status"])
         ctx.coverage["states"] += res4.get("distinct", 0)
         ctx.coverage["transitions"] += res4.get("generated", 0)
     # 2. vacuity guard: the design that leaks a grant on cancellation must be caught by the same invariants
-    neg = ctx.tlc("Lock", strict_cfg(reqs, accts, "leak", 1, False), "neg-leak", timeout=900)
+    neg = ctx.tlc("Lock", strict_cfg(reqs, accts, "leak", 1, False), "neg-leak", timeout=900, pure=True)
     if neg["status"] != "invariant" or neg.get("invariant") != "NoLeak":
         raise Infra("negative config (CancelDesign=leak) was not rejected: %s" % neg["status"])
     ctx.coverage["negative_configs_rejected"] = 1
